@@ -199,6 +199,9 @@ func runC05(rc *RunCtx) {
 		ln.FeePolicy = T.Choose("feepol", 4)
 	}
 	rc.NewMintWorld(ln, MintOpts{Fee: fee, MPP: true})
+	if random {
+		rc.S.Policy = T.Choose("cfg.policy", 3)
+	}
 	W := rc.W
 	m := NewMW(rc, "A")
 	m.Fees = map[string][]uint64{"A": {uint64(fee)}}
